@@ -207,7 +207,7 @@ def structure_checks(code, rng, fail, vec_checks=6):
 # ---------------------------------------------------------------------------
 # user-defined codes
 
-from vf.usercode import make_user_code  # noqa: E402
+from vf.usercode import make_user_code, scrambled_specs  # noqa: E402
 
 
 @st.composite
@@ -303,6 +303,16 @@ def eval_case(case):
                 'labels': ['hashseed'], 'evals': 2 * len(a)}
 
     rng = np.random.default_rng(case.get('rseed', 0))
+    if kind == 'scrambled':
+        # genuine (mostly non-CSS) stabilizer code built through the
+        # coordinate API from a random Clifford circuit
+        code = make_user_code(case)
+        info = structure_checks(code, rng, fail, vec_checks=3)
+        from checks.c01_valid_code import code_relations
+        more, _ = code_relations(code)
+        fails.extend(more)
+        return {'fails': fails, 'nontrivial': info.get('max_w', 0) >= 2,
+                'labels': ['scrambled', 'scr-css' if info.get('css') else 'scr-noncss']}
     if kind == 'user':
         code = make_user_code(case)
         info = structure_checks(code, rng, fail, vec_checks=3)
@@ -332,6 +342,13 @@ def case_sig(case):
         from checks.c01_valid_code import case_sig as s
         return s(case)
     return {}
+
+
+@st.composite
+def scrambled_user_specs(draw):
+    spec = draw(scrambled_specs(min_n=2, max_n=8))
+    spec['rseed'] = draw(st.integers(0, 2**31 - 1))
+    return spec
 
 
 def lib_cases(max_L, max_L_2d, max_color, max_n):
@@ -370,6 +387,7 @@ def run(ctx):
              'Color666ToricCode with L_x != L_y (logicals cannot be built: C01 known finding)')
     ctx.run_cases(cases, chunk=6)
     ctx.run_hypothesis('user_specs', n_user)
+    ctx.run_hypothesis('scrambled_user_specs', n_user // 3)
     # hash seeds: split codes into chunks, compare seed s_i with s_0
     chunks = [hs_codes[i::8] for i in range(8)]
     hs_cases = [{'kind': 'hashseed', 'codes': ch, 'seeds': [seeds[0], s]}
